@@ -1,6 +1,7 @@
 import GrinVerif.Drv.Common
 import GrinVerif.Model.Codec
 import GrinVerif.Model.CodecConn
+import GrinVerif.Model.CodecGlue
 import GrinVerif.Model.SerBlock
 import GrinVerif.Model.DecSer
 /-! Driver glue for the `codec` domain (line protocol handler): C11 decoder lines and C19 framing lines.
@@ -43,12 +44,19 @@ import GrinVerif.Model.DecSer
                                           from files), end B's handler records them and answers Pings; left = seen at B,
                                           right = the Pongs seen at A.  Model: `writeOps` as the fragments, `connLoop`)
     codec dtrack <ver> <[t:body:att,…]>  => sent:<bytes>:<count>;recv:<bytes>:<count>   (the two `Tracker`s afterwards)
+    codec chan fill                      => accepted:<n>;extra:ok;received:<n>;inorder:1;extraseen:0   (the send channel filled to
+                                          SEND_CHANNEL_CAP with the writer thread parked on the tracker lock, one more offered)
     codec hconn <ver> <[frag,…]>         => [ev;…;pongs:<n>;closed:<0|1>]   (C19: the reader thread with a handler whose
                                           answer to a Ping is scripted by `height % 16`: `connLoop`, `try_break!` table)
     codec hsw hand <genesis> <caps> <td> <self addr> <peer addr> <ua> <nonce> => <frame>   (the `Hand` the real `initiate` writes)
     codec hsw accept <genesis> <caps> <td> <ua> <deny> <peer ip:port> <ring nonce> <addrs before> <stream>
                                          => <ok caps:ua:ip:port:ver:td:in | err E>|<frame written | ->|<addrs after>
     codec hsw initiate <genesis> <deny> <peer ip:port> <stream> => ok caps:ua:ip:port:ver:td:out | err E
+    codec glue new <dir> <remote ver> <remote caps> <peer ip:port> <our td> <our height> => ok <negotiated version>   (C19, spec:
+                                          a real `Peer::accept` / `Peer::connect` + `Protocol` + `TrackingAdapter` against a raw socket)
+    codec glue ctl ban|ready <0|1>       => ok
+    codec glue recv <kind> <args…>       => [<adapter calls>]|<response frame | ->|closed:<0|1>   (`consumeGlue`)
+    codec glue send <kind> <args…> <[body@1,body@2,body@3,body@1000]> => <ret>|<frame | ->        (`sendGlue`)
 
 `canon` = the decoded value re-encoded (`-` where the model carries no value); `maxreq` = largest single
 allocation request the real decoder made, checked against the model's requested allocation
@@ -60,6 +68,8 @@ structure St where
   dummy : Unit := ()
   /-- the nonce ring of the long-lived `Handshake` of the `ring` lines -/
   ring : List Nat := []
+  /-- the `Peer` of the current `glue` conversation -/
+  glue : Option GV.Codec.Glue := none
 
 def realKey (b : Bytes) : Nat := ofBE (h256 b)
 
@@ -604,6 +614,18 @@ def handleConn (args : List String) (impl : String) : Option Verdict :=
     match nat? ver, parsePlan plan with
     | some ver, some pl => some (cmpModel (duplexModel ver pl).2 impl)
     | _, _ => some .unknown
+  | ["chan", "fill"] =>
+    -- the writer thread holds the first message (parked before it writes), every further one goes through
+    -- `chanSend`; then one more through `ConnHandle::send`
+    let offered := List.range (GV.Gen.CodecConn.SEND_CHANNEL_CAP + 7)
+    let mk (i : Nat) : OutMsg := { t := GV.Gen.Msg.T_Ping, body := writeU64 7 ++ writeU64 i, att := none }
+    let q := (offered.drop 1).foldl (fun q i => chanSend q (mk i)) []
+    let accepted := 1 + q.length
+    let q' := chanSend q (mk 999999)
+    let extraSeen := if q'.length = q.length then 0 else 1
+    -- drained in order by the writer thread (`writer_thread_in_order`)
+    let received := 1 + q'.length
+    some (cmpModel s!"accepted:{accepted};extra:ok;received:{received};inorder:1;extraseen:{extraSeen}" impl)
   | ["hconn", ver, frags] =>
     match nat? ver, parseHexList frags with
     | some ver, some fr =>
@@ -661,7 +683,113 @@ def splitEndMaxreq (impl : String) : String × Option Nat :=
     | _ => (impl, none)
   | [] => (impl, none)
 
+
+/-! ### C19: the glue above `conn` (`peer.rs`, `protocol.rs`) -/
+
+def showCall : Call → String
+  | .peerDifficulty a td h => s!"pdiff:{showSock a}:{td}:{h}"
+  | .kernel h => s!"kernel:{toHex h}"
+  | .tx k0 stem => s!"tx:{toHex k0}:{if stem then 1 else 0}"
+  | .block h o => s!"block:{toHex h}:{o}"
+  | .cblock h => s!"cblock:{toHex h}"
+  | .header h => s!"header:{toHex h}"
+  | .getBlock h => s!"getblock:{toHex h}"
+  | .getTx h => s!"gettx:{toHex h}"
+  | .findPeers c => s!"findpeers:{c}"
+  | .locate n => s!"locate:{n}"
+
+/-- the serialisation of the harness' value at the negotiated version: `[body@1,body@2,body@3,body@1000]` -/
+def bodyAt (ver : Nat) (bodies : List Bytes) : Option Bytes :=
+  let i := if ver ≤ 1 then 0 else if ver = 2 then 1 else if ver = 3 then 2 else 3
+  bodies[i]?
+
+def parseIn (args : List String) : Option (In × List Bytes × String) :=
+  match args with
+  | ["ping", td, h] => do some (.ping (← td.toNat?) (← h.toNat?), [], "")
+  | ["pong", td, h] => do some (.pong (← td.toNat?) (← h.toNat?), [], "")
+  | ["banreason"] => some (.banReason, [], "")
+  | ["kernel", h] => do some (.kernel (← parseHex h), [], "")
+  | ["tx", k] => do some (.tx (← parseHex k) false, [], "")
+  | ["stem", k] => do some (.tx (← parseHex k) true, [], "")
+  | ["block", h] => do some (.block (← parseHex h), [], "")
+  | ["cblock", h] => do some (.cblock (← parseHex h), [], "")
+  | ["header", h] => do some (.header (← parseHex h), [], "")
+  | ["getblock", h, f, b] => do some (.getBlock (← parseHex h) (f = "1"), (← parseHexList b), "")
+  | ["getcblock", h, f, b] => do some (.getCompactBlock (← parseHex h) (f = "1"), (← parseHexList b), "")
+  | ["gettx", h, f, b] => do some (.getTx (← parseHex h) (f = "1"), (← parseHexList b), "")
+  | ["getpeers", c, b] => do some (.getPeerAddrs (← c.toNat?), (← parseHexList b), "")
+  | ["getheaders", n, b] => do some (.getHeaders (← n.toNat?), (← parseHexList b), "")
+  | ["archive", h, len, sum] => do some (.archive (← parseHex h) (← len.toNat?), [], sum)
+  | _ => none
+
+def handleGlue (st : St) (args : List String) (impl : String) : Option (St × Verdict) :=
+  let net := netAutomatedTesting
+  match args with
+  | ["glue", "new", _dir, rv, caps, addr, td, height] =>
+    match nat? rv, nat? caps, parseSockAddr addr, nat? td, nat? height with
+    | some rv, some caps, some addr, some td, some height =>
+      let g := Glue.new LOCAL_PROTOCOL_VERSION' rv caps addr td height
+      some ({ st with glue := some g }, cmpSpec s!"ok {min LOCAL_PROTOCOL_VERSION' rv}" impl)
+    | _, _, _, _, _ => some (st, .unknown)
+  | ["glue", "ctl", what, b] =>
+    match st.glue with
+    | some g =>
+      let g' := if what = "ban" then { g with banned := b = "1" } else if what = "ready" then { g with ready := b = "1" } else g
+      some ({ st with glue := some g' }, cmpModel "ok" impl)
+    | none => some (st, .unknown)
+  | "glue" :: "recv" :: rest =>
+    match st.glue, parseIn rest with
+    | some g, some (m, bodies, extra) =>
+      let (g', calls, out) := consumeGlue g m
+      let log := calls.map showCall ++ (match out, m with
+        | .attachment n, .archive h _ => [s!"archive:{toHex h}:{n}:{extra}"]
+        | _, _ => [])
+      let resp : Option String := match out with
+        | .pong td h => some (toHex (writeMessage net GV.Gen.Msg.T_Pong (writeU64 td ++ writeU64 h) []))
+        | .stored t => (bodyAt g.ver bodies).map fun b =>
+            -- a compact block is derived from the stored block with a fresh random nonce: type and length
+            if t = GV.Gen.Msg.T_CompactBlock then s!"len:{t}:{(writeMessage net t b []).length}"
+            else toHex (writeMessage net t b [])
+        | _ => some "-"
+      let closed := match out with | .disconnect => 1 | .badMessage => 1 | _ => 0
+      match resp with
+      | some r => some ({ st with glue := some g' }, cmpModel s!"[{";".intercalate log}]|{r}|closed:{closed}" impl)
+      | none => some (st, .unknown)
+    | _, _ => some (st, .unknown)
+  | "glue" :: "send" :: rest =>
+    match st.glue with
+    | none => some (st, .unknown)
+    | some g =>
+      let parsed : Option (Out × Bool × List Bytes) := match rest with
+        | ["ping", td, h, b] => do some (.ping (← td.toNat?) (← h.toNat?), false, (← parseHexList b))
+        | ["header", h, b] => do some (.header (← parseHex h), true, (← parseHexList b))
+        | ["cblock", h, b] => do some (.cblock (← parseHex h), true, (← parseHexList b))
+        | ["kernel", h, b] => do some (.kernel (← parseHex h), true, (← parseHexList b))
+        | ["tx", k, b] => do some (.tx (← parseHex k), true, (← parseHexList b))
+        | ["stem", _k, b] => do some (.stem, false, (← parseHexList b))
+        | ["blockreq", h, o, b] => do some (.blockReq (← parseHex h) (← o.toNat?), false, (← parseHexList b))
+        | ["txhashsetreq", b] => do some (.txhashsetReq, false, (← parseHexList b))
+        | _ => none
+      match parsed with
+      | none => some (st, .unknown)
+      | some (o, guarded, bodies) =>
+        let (g', t) := sendGlue g o
+        let ret := if guarded then (if t.isSome then "Some(true)" else "Some(false)") else "ok"
+        let frame : Option String := match t, o with
+          | none, _ => some "-"
+          | some t, .tx k0 =>
+            if t = GV.Gen.Msg.T_TransactionKernel then some (toHex (writeMessage net t k0 []))
+            else (bodyAt g.ver bodies).map fun b => toHex (writeMessage net t b [])
+          | some t, _ => (bodyAt g.ver bodies).map fun b => toHex (writeMessage net t b [])
+        match frame with
+        | some f => some ({ st with glue := some g' }, cmpModel s!"{ret}|{f}" impl)
+        | none => some (st, .unknown)
+  | _ => none
+
 def handle (st : St) (args : List String) (impl : String) : St × Verdict :=
+  match handleGlue st args impl with
+  | some r => r
+  | none =>
   match handleConn args impl with
   | some v => (st, v)
   | none =>
